@@ -82,8 +82,11 @@ class World:
         """the module-level object is an instance of a repository class derived from threading.local whose attributes are set in
         its __init__ (which runs once per thread); the `initialised once at import` pitfall of a bare threading.local() is C16.4"""
         base = root
-        while base and base not in self.model.var_class and "." in base:
+        while base and base not in self.model.var_class and base not in self.model.module_vars and "." in base:
             base = base.rsplit(".", 1)[0]
+        bd = self.model.module_vars.get(base)
+        if bd is not None and isinstance(bd.node, ast.Call) and core.src(bd.node.func) in ("threading.local", "local"):
+            return True             # a bare threading.local(): whatever hangs below it belongs to one thread
         cq = self.model.var_class.get(base)
         if not cq:
             return False
@@ -551,6 +554,10 @@ def deep_store_is_rmw(model: Model, sw: "SharedWrite") -> bool:
     return False
 
 
+def resets_whole(sw: "SharedWrite") -> bool:
+    return any(kk.split(" (")[0] in ("method:clear", "del") or re.search(r"\[\s*:\s*\]\s*(=|$)", t) for kk, l, t in sw.records)
+
+
 def history_definite(model: Model, sw: "SharedWrite") -> bool:
     """Is this write certain to make persistent data depend on the calls made so far?  Read-modify-write of the shared
     object (augmented stores, in-place transformations, reordering) or overwriting components of a persistent object."""
@@ -559,11 +566,24 @@ def history_definite(model: Model, sw: "SharedWrite") -> bool:
     mtf_lines = {l for kk, l, t in sw.records if kk.split(" (")[0] == "method:insert"
                  and re.search(r"([\w\.]+)\.insert\(\w+,\1\.pop\(", t.replace(" ", ""))}
     mtf = bool(mtf_lines) and all(l in mtf_lines for kk, l, t in sw.records if kk.split(" (")[0] in ("method:insert", "method:pop"))
+    # the same permutation written as  X.remove(x); X.insert(0, x)
+    rm_texts = [t.replace(" ", "") for kk, l, t in sw.records if kk.split(" (")[0] == "method:remove"]
+    ins_texts = [t.replace(" ", "") for kk, l, t in sw.records if kk.split(" (")[0] == "method:insert"]
+    if rm_texts and ins_texts and not mtf:
+        moved = {m.group(1) + "|" + m.group(2) for t in rm_texts for m in [re.search(r"([\w\.]+)\.remove\((\w+)\)", t)] if m}
+        put = {m.group(1) + "|" + m.group(2) for t in ins_texts for m in [re.search(r"([\w\.]+)\.insert\(0,(\w+)\)", t)] if m}
+        if moved and moved == put:
+            mtf = True
+    # a work list that is reset as a whole (`xs[:] = ...`, `xs.clear()`, `del xs[:]`) before it is refilled: whether a call can see
+    # what an earlier one left is the written-before-read question, not positive evidence
+    reset = getattr(sw, "object_reset", False) or resets_whole(sw)
     for k in sw.kinds:
         base = k.split(" (")[0]
         if "(object stored in shared state)" in k:
             continue
-        if mtf and base in ("method:insert", "method:pop"):
+        if mtf and base in ("method:insert", "method:pop", "method:remove"):
+            continue
+        if reset and base in ("method:append", "method:extend", "method:insert", "subscript-aug", "subscript-store:key", "subscript-store:const"):
             continue
         if base == "method:extend" and placeholder_growth(sw):
             continue
